@@ -174,6 +174,10 @@ def cases(draw, workers=("sched", "sched", "sched", "debug", "cf")):
                 k=None, precache=0)
     if len(prog["nodes"]) > 1 and draw(st.integers(0, 3)) == 0:
         case["precache"] = draw(st.integers(1, len(prog["nodes"]) - 1))
+    elif draw(st.integers(0, 3)) == 0:
+        # second submission with rerun=True after a complete first run: every job runs again,
+        # and again only after the jobs it consumes have finished in THIS run
+        case["rerun"] = True
     return case
 
 
@@ -186,7 +190,8 @@ def run(sh):
             return
         dependent = any(j["deps"] for j in jobs)
         un = sh.run_case(case, nontrivial=False, labels=[f"worker_{case['worker']}",
-                                                         "precached" if case["precache"] else "cold"],
+                                                         "precached" if case["precache"] else
+                                                         "rerun_after_complete_run" if case.get("rerun") else "cold"],
                          raise_unattributed=True)
         obs = case.pop("_obs", {})
         if obs.get("timed_out"):
